@@ -202,10 +202,19 @@ pub fn cel_v(sp: &Sprite, f: u16, l: u16, image: bool) -> V {
     m(items)
 }
 
+/// the slot of a layer whose index does not fit the cel chunk's 16-bit layer field: always absent
+pub fn absent_cel_v(sp: &Sprite, f: u32, l: u32, image: bool) -> V {
+    let mut items = vec![("frame", n(f)), ("layer", n(l)), ("is_empty", b(true)), ("top_left", V::L(vec![n(0), n(0)])), ("is_tilemap", b(false)), ("ud", ud_v(None))];
+    if image {
+        items.push(("image", V::Img(crate::val::Img::new(sp.width as u32, sp.height as u32))));
+    }
+    m(items)
+}
+
 pub fn cels(sp: &Sprite, images: bool) -> V {
     let nl = sp.layers.len();
     let nf = sp.durations.len();
-    V::L((0..nf).map(|f| V::L((0..nl).map(|l| cel_v(sp, f as u16, l as u16, images)).collect())).collect())
+    V::L((0..nf).map(|f| V::L((0..nl).map(|l| if l > u16::MAX as usize { absent_cel_v(sp, f as u32, l as u32, images) } else { cel_v(sp, f as u16, l as u16, images) }).collect())).collect())
 }
 
 pub fn frame_images(sp: &Sprite) -> V {
@@ -231,7 +240,7 @@ fn div_trunc(a: i32, b: i32) -> i32 {
 
 pub fn tilemaps(sp: &Sprite, images: bool) -> V {
     let mut out = Vec::new();
-    for (l, layer) in sp.layers.iter().enumerate() {
+    for (l, layer) in sp.layers.iter().enumerate().take(65_536) {
         let tsid = match layer.kind {
             LayerKind::Tilemap(id) => id,
             _ => continue,
